@@ -266,8 +266,8 @@ class BeltStore(Store):
 
             # 6) Compute new insertion index
             if self.mode == "FIFO":
-                # one slot before the remaining reserved block
-                insert_idx = len(self.ready_items) - len(self.reserved_events) - 1
+                # right after the remaining reserved block (first among the unreserved items)
+                insert_idx = len(self.reserved_events)
             else:  # LIFO
                 # top of stack
                 insert_idx = len(self.ready_items)
